@@ -199,6 +199,7 @@ _NP_FUNCS = {
     "around": lambda a, decimals=0: _round(a, decimals),
     "rint": lambda a: _round(a, 0),
     "swapaxes": lambda a, i, j: np.swapaxes(_arr(a), i, j),
+    "take": lambda a, idx, axis=None: np.take(_arr(a), np.asarray(_index_numbers(idx)), axis=axis),
     "cross": lambda a, b: _cross(_arr(a), _arr(b)),
     "zeros_like": lambda a, **k: np.zeros(_arr(a).shape),
     "empty_like": lambda a, **k: np.full(_arr(a).shape, Sym.atom("<uninitialised>"), dtype=object) if _arr(a).dtype == object else np.full(_arr(a).shape, np.nan),
@@ -220,6 +221,7 @@ _METHODS = {
     "copy": lambda a, **k: a.copy(),
     "astype": lambda a, *x, **k: a,
     "swapaxes": lambda a, i, j: a.swapaxes(i, j),
+    "take": lambda a, idx, axis=None: np.take(a, np.asarray(_index_numbers(idx)), axis=axis),
     "dot": lambda a, b: np.dot(a, _arr(b)),
     "tolist": lambda a: a.tolist(),
     "diagonal": lambda a, offset=0, **k: a.diagonal(offset, **k).copy(),
@@ -230,6 +232,20 @@ _METHODS = {
     "cumsum": lambda a, **k: _numeric_only(a, "cumsum").cumsum(**k),
     "round": lambda a, decimals=0: _round(a, decimals),
 }
+
+
+def _index_numbers(idx):
+    """An index array given as numbers (possibly constant Sym entries): plain integers."""
+    a = np.asarray(idx, dtype=object) if not (isinstance(idx, np.ndarray) and idx.dtype != object) else idx
+    if a.dtype != object:
+        return a.astype(int)
+    out = np.empty(a.shape, dtype=int)
+    for i in np.ndindex(*a.shape):
+        v = Sym.const(a[i])
+        if any(m != () for m in v.terms):
+            raise NotSymbolic("symbolic index")
+        out[i] = int(v.terms.get((), 0))
+    return out
 
 
 def _numeric_only(a, what):
